@@ -71,6 +71,21 @@ def finding_key(req, verdict):
     return None
 
 
+def refusal_verdict(alg, e, o):
+    """C14 says each reduction *returns* T and the reduced basis for every non-degenerate basis.  `Lattice::{minkowski,niggli}_reduce`
+    answering Err on a basis that the exact model reduces without any decision within rounding distance of a threshold
+    (not fragile, fuel not exhausted) is therefore a failing input (the raw function's output was rejected by the
+    implementation's own is_*_reduced test, or the loop gave up).  Returns the verdict text or None."""
+    if alg not in ("mink", "nig") or "|" not in e:
+        return None
+    t_impl, api = [x.strip() for x in e.split("|")][:2]
+    f = [x.strip() for x in o.split("|")]
+    if not api.startswith("Err") or len(f) < 5 or f[1] != "0" or f[2] == "1":
+        return None
+    return (f"fails:api-refuses-nondegenerate-basis {api}; T of the raw function = {t_impl}; the exact model reduces this basis "
+            f"with T = {f[0]} (no decision within rounding distance of a threshold)")
+
+
 def evaluate(reqs, exps, outs):
     """Compare model answers with the implementation's; returns a dict of statistics and lists."""
     st = collections.Counter()
@@ -132,6 +147,9 @@ def evaluate(reqs, exps, outs):
                 st[f"{alg}:{stream}:compared"] += 1
                 if t_model != t_impl:
                     t_mismatch.append((q, e, o))
+                v = refusal_verdict(alg, e, o)
+                if v:
+                    failing.append((q, v, tag))
             if len(samples) < 3 and i % 997 == 0:
                 samples.append(f"{q} => impl {e} ; model {o}")
         elif cmd == "c14-isred":
@@ -338,7 +356,14 @@ def replay(path):
                 if v != "holds":
                     rc = 1
         if q.startswith("c14 "):
-            print("model:", vlib.run_model([q])[0])
+            mo = vlib.run_model([q])[0]
+            print("model:", mo)
+            for l in rr.stdout.strip().splitlines():
+                if l.startswith("impl "):
+                    v = refusal_verdict(q.split(" ")[1], l[5:], mo)
+                    if v:
+                        print("oracle:", v)
+                        rc = 1
     if rc:
         print(f"VIOLATION property=C14 replay={path}")
     return rc
